@@ -102,6 +102,7 @@ type PathShape struct {
 	Unresolved  []string // references without a location
 	LLs         []wk.LL  // resolved locations (only if len(Unresolved)==0)
 	ClosedByRef bool
+	Mixed       bool // holds references and literal coordinates
 }
 
 func (p PathShape) ClosedByLoc() bool {
@@ -121,6 +122,9 @@ func PathProblems(p PathShape) []string {
 	}
 	if p.ClosedByRef {
 		if lp := LoopProblem(p.LLs[:p.N-1]); lp != "" {
+			if p.Mixed {
+				lp += "(path-mixing-references-and-coordinates)"
+			}
 			out = append(out, "path:closed-"+lp)
 		}
 	}
@@ -250,17 +254,19 @@ type Problem struct {
 
 func (p Problem) String() string { return fmt.Sprintf("%s: %s%s", p.ID, p.Class, p.Text) }
 
+// ProblemClasses names the primary broken rule (the first in sorted order; the
+// message lists all), so that classes stay one per rule rather than one per
+// combination.
 func ProblemClasses(ps []Problem) string {
-	set := map[string]bool{}
-	for _, p := range ps {
-		set[p.ID.Type.String()+":"+strings.TrimPrefix(strings.TrimPrefix(p.Class, "path:"), "area:")] = true
-	}
 	var out []string
-	for c := range set {
-		out = append(out, c)
+	for _, p := range ps {
+		out = append(out, p.Class)
 	}
 	sort.Strings(out)
-	return strings.Join(out, "+")
+	if len(out) == 0 {
+		return ""
+	}
+	return out[0]
 }
 
 func ProblemsString(ps []Problem) string {
@@ -273,8 +279,10 @@ func ProblemsString(ps []Problem) string {
 
 func (m Model) shape(f Feat) PathShape {
 	p := PathShape{N: len(f.Path)}
+	nref := 0
 	for _, pt := range f.Path {
 		if pt.IsRef() {
+			nref++
 			ll, ok := m.loc(pt.Ref)
 			if !ok {
 				p.Unresolved = append(p.Unresolved, pt.Ref.String())
@@ -288,6 +296,7 @@ func (m Model) shape(f Feat) PathShape {
 	if p.N >= 2 && f.Path[0].IsRef() && f.Path[0].Ref == f.Path[p.N-1].Ref {
 		p.ClosedByRef = true
 	}
+	p.Mixed = nref > 0 && nref < p.N
 	return p
 }
 
@@ -317,4 +326,29 @@ func (m Model) Problems() []Problem {
 		}
 	}
 	return out
+}
+
+// RootClass names a C37 violation by the broken rule and where it got in. The
+// three rules enforced (or not) by the shared ingest.ValidatePath /
+// ValidatePathForArea are named alike for every entry point of a group
+// (build | AddFeature | MergedChange); the others carry the entry point and
+// the verdict of the call.
+func RootClass(entry, group, verdict string, ps []Problem) string {
+	has := func(sub string) bool {
+		for _, p := range ps {
+			if strings.Contains(p.Class, sub) {
+				return true
+			}
+		}
+		return false
+	}
+	switch {
+	case has("self-intersecting"):
+		return "closed-path-self-intersecting:accepted-by-" + group
+	case has("path:closed-clockwise(path-mixing"):
+		return "closed-path-mixing-references-and-coordinates-clockwise:accepted-by-" + group
+	case has("area:path-closed-by-coordinates-"):
+		return "area-over-clockwise-ring-closed-by-coordinates:accepted-by-" + group
+	}
+	return entry + ":" + verdict + ":" + ProblemClasses(ps)
 }
